@@ -181,20 +181,6 @@ def check(line, info, stats):
                 body_fibers[site].append(e["fid"])
     allbody = set(f for fs in body_fibers.values() for f in fs)
     interfered = any(e["t"] == "pre" and e["target"] in allbody for e in ents)
-    # a fiber that resumes / cancels one of its own (suspended, pass-through) ancestors re-enters that ancestor while
-    # it is waiting for this very fiber: the ancestor's blocked `resume` completes with "cannot resume fiber with
-    # status :alive" although its body has not exited.  Not a normal exit path; excluded like outside interference.
-    creator = {e["id"]: e["creator"] for e in ents if e["t"] == "new"}
-
-    def ancestors(f):
-        seen = set()
-        while f in creator and f not in seen:
-            seen.add(f)
-            f = creator[f]
-            yield f
-    if any(e["t"] == "pre" and e["kind"] in (0, 1, 2, 3) and e["target"] in set(ancestors(e["fid"])) and e["tstatus"] not in FIN | {15}
-           for e in ents):
-        interfered = True
     # propagate can also re-enter a body fiber from outside
     if interfered:
         stats["cleanup_skipped_interference"] = stats.get("cleanup_skipped_interference", 0) + 1
